@@ -68,6 +68,11 @@ def enqueue_all(h):
 
 @oset("socket.send_with_header.not-open", ["C16", "C15"], [SWH])
 def send_not_open(h):
+    if not h.symbolic and not getattr(h, "concrete", False):
+        # besides the direct call below, the history "open, link never comes up, close(), send()" on the real socket
+        from replay import more_scenarios as MS
+        MS.oblige_from(h, [MS.close_scenarios], {"sending on a socket that is not open raises NotOpenError", "nothing is held"},
+                       prefix="history open / never connected / close / send: ")
     n = h.choice("queue_len", [0, 1, 3])
     W = make_world(h)
     old = [W.entry(f"e{i}") for i in range(n)]
